@@ -114,7 +114,7 @@ def _check_mesh(cls, mesh, fc, res, tag, exact_faces=True):
     names = ("_x", "_y", "_z")
     for ax in range(d):
         f = np.asarray(getattr(mesh.facecenters, names[ax]), dtype=float)
-        res["evals"] += 1
+        res["evals"] += N[ax]
         L = max(abs(fc[ax][0]), abs(fc[ax][-1]))
         if exact_faces:
             if f.shape != fc[ax].shape or not np.array_equal(f, fc[ax]):
@@ -134,6 +134,7 @@ def _check_mesh(cls, mesh, fc, res, tag, exact_faces=True):
         res["nontrivial"] += N[ax]
     V = np.asarray(mesh.cellvolume, dtype=float)
     want = ref_volume(cls, fc)
+    res["evals"] += int(want.size)
     res["nontrivial"] += int(want.size)
     if V.shape != tuple(N):
         add("volume_shape", "cellvolume has shape %s for dims %s" % (V.shape, N))
